@@ -77,6 +77,10 @@ CHECKS = {
    text="A1: cards (integer and half-integer spins, two resonances in a slot, an l_list restriction) x strategy tuples (default, cached_amp, cached_amp with stripped angles/momenta, cached_shape, base_factor with and without cached angles, p4_directly) x flags (eager, use_tf_function, +no_id_cached, lazy_call; jit_compile in the thorough tier) x angle options (r_boost, random_z, center_mass, align_ref), each with an explicit-state exploration of the call/cache automaton of AbsPDF.__call__ (states = data ids seen x traced functions x parameter point; operations call(d1), call(d2), set_params(P1|P2)) against plain eager default evaluation on moving-parent events, sampled histories replayed on fresh objects. A2: cached_int / cached_amp / cfit+cached_amp vs their uncached counterparts (NLL and gradient). A3: every contraction expression the amplitude builder emits on the card families (harvested by interposition) plus a synthetic grammar (<=3 operands, <=3 letters each, all ordered output subsets, canonicalised by renaming): tf_pwa.einsum.einsum raises or equals numpy.einsum.",
    note="The abstract automaton state is the complete mutable hidden state of AbsPDF/WrapFun (checked by fresh-object replays). XLA only in the thorough tier.",
    technique="explicit-state exploration of the evaluation-cache automaton + bounded-exhaustive enumeration of strategy tuples and contraction programs"),
+ "C09": dict(level="exploration", ref="4-C09",
+   text="A1: every arithmetic operator of NumberError (+,-,*,/,**, unary -, log, exp, apply with and without a gradient, cal_err with every pattern of exact/uncertain operands) x operand patterns (both uncertain, right exact, left exact = reflected forms) x values {0.5,2,7.5,-3} x errors {0.1,0.25} against first-order propagation with mpmath derivatives, error >= 0. A2: get_params_error (default, correct, hesse, 3-point) and cal_hesse_error after a converged fit for couplings / bounded mass / lower-bounded width scenarios against sqrt(diag(H^-1)) with H from AD of the reported NLL; trans_error_matrix against y' V y'. A3: fit-fraction errors (old/new x every resonance and interference entry x identity/diagonal/correlated covariance x batch sizes x weighted/unweighted x floating sets) against sqrt(J V J^T) with J the AD Jacobian of the fraction rebuilt from partial-sum densities. A4: vm.error_trans and ConfigLoader.params_trans for 7 expressions (scalar, vector, dict valued) x 3 covariances.",
+   note="First-order propagation; reflected operators the class does not implement are counted as not offered; A2 needs a positive-definite Hessian (obtained by converging first).",
+   technique="bounded-exhaustive enumeration of operators / operand patterns / derived quantities with AD and mpmath Jacobian oracles"),
 }
 
 NA_REASON = "check not built yet in this round (planned in DESIGN.md section 4)"
